@@ -112,6 +112,9 @@ def args_tour(crate):
                 vals = ["s%d" % ((i * 7) % 31) if i % 3 else P.STRV[i % len(P.STRV)] for i in range(ln)]
             items.append(F("k%d_%s" % (n, kind), args=(kind, vals), bencher=(n % 2 == 0)))
     items.append(F("gen_args", types=[0, 1, 6], args=("vec_i", [3, 1, 2]), bencher=True))
+    # labels with line breaks (argument renderings and a custom name): the row shows the whole rendering
+    items.append(F("multiline", name="two\nlines", args=("arr_str", ["north\neast", "north\nwest", "plain"])))
+    items.append(F("multiline_v", args=("vec_string", ["one\ntwo\nthree", "one\ntwo"]), bencher=True))
     # type syntax other than a path: &String and String must not share a label, tuples / arrays / fn pointers keep their shape
     items.append(F("nonpath_types", types=[10, 1, 3, 11, 12, 13, 14, 15, 16, 17, 18, 19]))
     items.append(F("nonpath_types_cs", types=[10, 1, 11, 14], consts=("L", "i", [1, 2]), args=("arr_i", [5])))
